@@ -370,9 +370,9 @@ class DiffPolyKernel(DiffKernelMixin, Kernel):
         elif eval_gradient:
             raise ValueError
         optg = not self.hyperparameter_gamma.fixed
-        if eval_gradient and optg:
-            dk = 0
         dot1 = (self.gamma * X).dot(Y.T)
+        if eval_gradient and optg:
+            dk = np.zeros_like(dot1)
         dotn = 1
         for n in range(1, self.order + 1):
             if self.factorial:
@@ -414,8 +414,8 @@ class DiffPolyKernel(DiffKernelMixin, Kernel):
         if Y is None:
             Y = X
         k = 1.0
-        dk = 0.0
         dot1 = (self.gamma * X).dot(Y.T)
+        dk = np.zeros_like(dot1)
         dotn = 1
         for n in range(1, self.order + 1):
             if self.factorial:
